@@ -3398,11 +3398,8 @@ impl Server {
             }).unwrap_or(false);
             
             if should_remove {
-                // Check if connection has active subscriptions before cleaning up
-                if self.pubsub.is_subscribed(id) {
-                    // Skip cleanup for connections with active subscriptions
-                    continue;
-                }
+                // A closing connection is always removed; its subscriptions are dropped
+                // below (unsubscribe_all), so it stops counting as a receiver.
                 to_remove.push(id);
             }
         }
